@@ -104,7 +104,8 @@ PairSets ==
      << << KeyCaps, << 102, 82 >> >>, << << 118 >>, << 48, 46, 57 >> >> >>,
      << << Key255, Val255 >> >>,
      << << KeyA, << 61, 59 >> >>, << << 59, 61 >>, << 0, 255 >> >> >>,   \* delimiters and extreme bytes inside strings
-     << << KeyA, ValX >>, << KeyB, ValX >>, << << 99 >>, ValX >> >> >>
+     << << KeyA, ValX >>, << KeyB, ValX >>, << << 99 >>, ValX >> >>,
+     CollisionPairs >>
 MappingTails == << << >>, << 0 >>, Fill(7, 2) >>
 Junk == << << >>, << 1 >>, << 1, 97 >>, << 1, 97, 61 >>, << 1, 97, 61, 0 >>, << 1, 97, 61, 1, 120 >>, << 0, 61, 0, 60 >>, << 1, 97, 61, 1, 120, 58 >>,
            << 5, 97 >> >>
